@@ -20,6 +20,10 @@ def programs():
             {"observer": obs, "threads": {"app1": [["schedule", "."], ["start"], ["unschedule", "."], ["schedule", "d1"], ["unschedule_all"],
                                                    ["stop"], ["join"]]}},
             {"observer": obs, "threads": {"app1": [["start"], ["schedule", "."], ["stop"], ["join"]], "app2": [["schedule", "d1"], ["unschedule", "d1"]]}},
+            # start() a second time on a running observer (it must raise, not block, and not cost the watch its emitter)
+            {"observer": obs, "threads": {"app1": [["schedule", "."], ["start"], ["start"], ["touch", "f"]] + extra + [["stop"], ["join"]]}},
+            {"observer": obs, "threads": {"app1": [["schedule", "."], ["start"], ["touch", "f"]] + extra + [["stop"], ["join"]],
+                                          "app2": [["start"]]}},
         ]
     return out
 
